@@ -16,6 +16,7 @@
 #include <atomic>
 #include <set>
 #include <sys/stat.h>
+#include <unistd.h>
 
 using namespace verif;
 using namespace chaiscript;
@@ -36,6 +37,8 @@ namespace {
     std::map<int, int64_t> globs, classes, cfns;
     std::set<int> types, files;
     int64_t method_missing = -1; // value returned by the script-defined method_missing for ints, -1 = not defined
+    bool module_active = false;     // the loadable module c15mod is active (its function, type and constant are visible)
+    bool convmodule_active = false; // (known-finding replay only) the module with a conversion
   };
 
   class C15 : public World {
@@ -56,7 +59,7 @@ namespace {
       for (int i = 0; i < n; ++i) {
         J op = J::object();
         op["a"] = J(int(plan.below(uint64_t(T))));
-        const int k = int(plan.below(27));
+        const int k = int(plan.below(29));
         switch (k) {
         case 0:
         case 1:
@@ -114,6 +117,10 @@ namespace {
             op["k"] = J("set_state");
             op["i"] = J(int(plan.below(uint64_t(snaps))));
           }
+          break;
+        case 27:
+        case 28:
+          op["k"] = J("loadmod"); // the host loads the binary extension module (a no-op while it is active)
           break;
         case 17:
           op["k"] = J("local");
@@ -208,6 +215,15 @@ namespace {
       }
       for (int g = 0; g < N_GLOB; ++g) {
         e.eval("def via_g" + std::to_string(g) + "() { return g" + std::to_string(g) + " }");
+      }
+
+      // the binary module lives next to the simulator binary (built per flavour by the Makefile)
+      std::string module_path;
+      {
+        char buf[4096];
+        const ssize_t n = ::readlink("/proc/self/exe", buf, sizeof(buf) - 1);
+        module_path = n > 0 ? std::string(buf, size_t(n)) : std::string("./simrun");
+        module_path = module_path.substr(0, module_path.rfind('/') + 1) + "libc15mod.so";
       }
 
       Model model;
@@ -312,6 +328,20 @@ namespace {
             const bool have = model.files.count(u) != 0;
             if (have ? out != "=i:" + std::to_string(7000 + u) : !is_err(out)) {
               bad(oi, "used-file-function-differs-from-model", "from_u" + std::to_string(u) + "() -> " + out);
+            }
+          }
+          {
+            // the loadable module: its function, its type name and its constant are visible iff it is active in this state
+            const std::string mf = eval_show(e, "mod_fn() + mod_const");
+            const std::string mt = eval_show(e, "type(\"ModThing\", false).is_type_undef()");
+            if (model.module_active ? (mf != "=i:62675" || mt != "=false") : (!is_err(mf) || mt != "=true")) {
+              bad(oi, "module-differs-from-model", "mod_fn() + mod_const -> " + mf + ", ModThing undefined? " + mt + ", model: module " + (model.module_active ? "active" : "not active"));
+            }
+            if (model.convmodule_active) {
+              const std::string cf = eval_show(e, "modconv_fn() + modconv_const");
+              if (cf != "=i:82675") {
+                bad(oi, "module-differs-from-model", "modconv_fn() + modconv_const -> " + cf + ", model: module with a conversion active");
+              }
             }
           }
           const int type_events_before = bg_type_events.load();
@@ -501,6 +531,19 @@ namespace {
                 model.fns[f][0] = num("v");
                 cnt[size_t(a)]["fault_throw_mid_eval"] += 1;
               }
+            } else if (k == "loadmod" || k == "loadmodconv") {
+              const bool conv = k == "loadmodconv"; // never generated: known finding C15-K1
+              try {
+                e.load_module(conv ? "c15modconv" : "c15mod", module_path);
+                out = "loaded";
+              } catch (...) {
+                out = "!" + describe_current_exception(&e);
+              }
+              if (out != "loaded") {
+                bad(oi, "module-differs-from-model", std::string("load_module of a module that is ") + ((conv ? model.convmodule_active : model.module_active) ? "active" : "not active in this state") + " -> " + out);
+              }
+              (conv ? model.convmodule_active : model.module_active) = true;
+              cnt[size_t(a)]["probe_binary_module_loaded"] += 1;
             } else if (k == "get_state") {
               snap_states.push_back(e.get_state());
               snap_models.push_back(model);
